@@ -1,5 +1,6 @@
 """C04: interpolation of the hull at the grid (_get_interpolation_indices, _interpolate_curve), point-wise for a generic grid index."""
 from ..contracts.interpolation import InterpolateCurve, InterpolationIndices
+from ..contracts.to_simple import SimpleConstraints
 from ..pyvc import verify
 
 
@@ -9,4 +10,13 @@ def items(rep):
     return [(InterpolationIndices(), [("searchsorted_left", verify.replace_const("right", "left")),
                                       ("no_decrement_on_equality", verify.replace_expr("indices[1:] - 1", "indices[1:]"))]),
             (InterpolateCurve(), [("p0_p1_swapped", verify.replace_expr("x_values[interpolation_indices + 1] - x_grid", "x_grid - x_values[interpolation_indices]")),
-                                  ("right_vertex_operation_taken_from_left", verify.replace_expr("content_values[interpolation_indices + 1]", "content_values[interpolation_indices]"))])]
+                                  ("right_vertex_operation_taken_from_left", verify.replace_expr("content_values[interpolation_indices + 1]", "content_values[interpolation_indices]"))]),
+            (SimpleConstraints(), simple_canaries())]
+
+
+def simple_canaries():
+    return [("per_group_best_index", verify.replace_expr("self._tradeoff_curve[sensitive_feature_value].iloc[i_best]",
+                                                        "self._tradeoff_curve[sensitive_feature_value].iloc[self._tradeoff_curve[sensitive_feature_value]['y'].idxmax()]")),
+            ("worst_grid_point_selected", verify.replace_expr("overall_tradeoff_curve.idxmax()", "overall_tradeoff_curve.idxmin()")),
+            ("operation1_from_operation0", verify.replace_expr("best_interpolation.operation1", "best_interpolation.operation0")),
+            ("unweighted_sum_of_group_curves", verify.replace_expr("p_sensitive_feature_value * self._tradeoff_curve[sensitive_feature_value]['y']", "self._tradeoff_curve[sensitive_feature_value]['y']"))]
